@@ -77,6 +77,7 @@ def run_c07(sc):
     base_actx = _actx(base, root)
     base_ops = _op_outcomes(base)
     tested = {"action": 0, "fn": 0, "plugin": 0, "subscriber": 0, "listener": 0, "guard": 0}
+    doubles = 0
     for plan in plans:
         s2 = copy.deepcopy(sc)
         s2["faults"] = [{"at_call": i} for i in plan]
@@ -136,6 +137,29 @@ def run_c07(sc):
             vios.append(Violation("C07", "on-action-error-not-notified", dict(sig, builtin=kind == "fn"),
                                   f"fault at call {plan} ({fired[0][1:]}): on_action_error called {len(errs)} times for {len(fired)} faults"))
             break
+        # double fault: the same action / built-in callback fault while every on_action_error hook raises as well - an observer
+        # fault "changes nothing at all", so the run must be the single-fault run
+        if len(plan) == 1 and kind in ("action", "fn") and doubles < 10 and "on_action_error" in (sc.get("hostile_plugin") or []):
+            doubles += 1
+            s3 = copy.deepcopy(sc)
+            s3["faults"] = [{"at_call": plan[0]}, {"always": ["plugin", "on_action_error"]}]
+            res3 = execute(s3)
+            results.append(res3)
+            if res3.meta.get("harness_error"):
+                return results, vios
+            if not res3.meta.get("abort"):
+                tested["double"] = tested.get("double", 0) + 1
+                esc3 = [o for o in _op_outcomes(res3) if isinstance(o[2], tuple) and o[2][0] == "exc"]
+                if len(esc3) != len(base_escaped):
+                    vios.append(Violation("C07", "injected-fault-escaped", dict(sig, fault_kind="plugin", double=True),
+                                          f"fault at call {plan} ({fired[0][1:]}) with a raising on_action_error hook: exception escaped "
+                                          f"the public API: {esc3[:2]}"))
+                    break
+                if _cfg_seq(res3, root) != _cfg_seq(res, root) or _acts(res3, root) != _acts(res, root):
+                    vios.append(Violation("C07", "observer-fault-changed-behaviour", dict(sig, fault_kind="plugin", double=True),
+                                          f"fault at call {plan} ({fired[0][1:]}): a raising on_action_error hook changed the run "
+                                          f"(configurations or actions differ from the run with the action fault alone)"))
+                    break
     base.meta["c07_tested"] = tested
     base.meta["c07_positions"] = len(plans)
     return results, vios
@@ -175,6 +199,7 @@ def run_c07_abort(sc):
     tag_op = {op.get("tag"): i for i, op in enumerate(sc["ops"]) if op.get("op") == "send" and op.get("tag") is not None}
     last_boundary_cfg = None
     seg_dirty = False
+    seg_start_seq = None
     for r in res.trace:
         k = r[K]
         if k == "op-call":
@@ -194,10 +219,12 @@ def run_c07_abort(sc):
             if not seg_dirty:
                 last_boundary_cfg = set(cfg)
                 seg_dirty = True
+                seg_start_seq = r[SEQ]
             (cfg.add if r[5].startswith("en.") else cfg.discard)(r[5][3:])
         elif k == "log" and ("rolling back" in (r[7] or "") or "All resolution attempts failed" in (r[7] or "")):
             errors.append({"op": cur_op if cur_op is not None else (recv_op if sc["engine"] == "async" else None),
-                           "seq": r[SEQ], "before": set(last_boundary_cfg or ()), "exc": r[6], "t": r[T]})
+                           "seq": r[SEQ], "before": set(last_boundary_cfg or ()), "exc": r[6], "t": r[T],
+                           "seq0": seg_start_seq if seg_dirty and seg_start_seq is not None else r[SEQ]})
             cfg = set(last_boundary_cfg or ())
             seg_dirty = False
     fin = w.final_obs("final")
@@ -262,7 +289,10 @@ def run_c07_abort(sc):
                         continue
                     # re-armed = the expiry is delivered again (the transition it drives may abort again)
                     fired = any(x[K] == "recv" and x[4] == root and x[5] == f"after.{dkey}.{sid}" and x[SEQ] > e["seq"] for x in res.trace)
-                    was_exited_by_abort = any(x[K] == "act" and x[4] == root and x[5] == "ex." + sid and x[SEQ] < e["seq"] for x in res.trace)
+                    # exited by the aborted transition itself (an earlier exit belongs to an earlier activation, whose
+                    # timer may already have fired)
+                    was_exited_by_abort = any(x[K] == "act" and x[4] == root and x[5] == "ex." + sid and e["seq0"] <= x[SEQ] < e["seq"]
+                                              for x in res.trace)
                     if not fired and was_exited_by_abort:
                         vios.append(Violation("C07", "rollback-timer-not-rearmed", sig,
                                               f"{sid} was exited and restored by the rollback at {e['t']}us but its after {dkey} never fired by {end_t}us"))
